@@ -83,7 +83,7 @@ reg(Spec("C02", "Decoding arbitrary bytes is memory-safe and terminates", ["Asam
          partial="'returned packets own their data after the buffer / decoder is released' is about object lifetime; observed by the harness (exact-size heap input freed before packets are read back, decoder destroyed before the last read, all under ASan), not proved",
          rule="well-formed frames of every kind truncated at every offset and with every length/type/flag field corrupted, TECMP frames of all message types, random byte strings, histories; inputs live in exact-size heap blocks freed before the packets are read back, the decoder is destroyed before the last read; view = packet count, payload length and validity, sanitizer verdict"))
 reg(Spec("C04", "Decoded packets report exactly what is on the wire", ["AsamCmp.Props.C04", "AsamCmp.Props.GenChecks"],
-         ["AsamCmp.C04.C04_wire", "AsamCmp.C04.C04_pad", "AsamCmp.C04.C04_truncate", "AsamCmp.C04.C04_invalid_marked", "AsamCmp.GenChecks.rules_ok", "AsamCmp.GenChecks.enums_ok"],
+         ["AsamCmp.C04.C04_wire", "AsamCmp.C04.C04_pad", "AsamCmp.C04.C04_truncate", "AsamCmp.C04.C04_invalid_marked", "AsamCmp.GenChecks.rules_ok", "AsamCmp.GenChecks.enums_ok", "AsamCmp.GenChecks.create_dispatch_ok"],
          ["AsamCmp.Props.C04", "AsamCmp.Props.GenChecks"], gen_dec.gen_c04, predicate=gen_dec.pred_c04,
          rule="frames built from the protocol table: 0..8 messages of all kinds, consistent and inconsistent inner lengths, error flags, every truncation, zero padding, prior history"))
 reg(Spec("C05", "Segmented messages reassemble under any interleaving", ["AsamCmp.Props.C05", "AsamCmp.Props.C05b", "AsamCmp.Props.GenChecks"],
@@ -118,8 +118,8 @@ reg(Spec("C12", "Headers and payload fields use the ASAM CMP / TECMP wire layout
          assumptions=["float fields travel as 32-bit patterns; NaN patterns are excluded from generation"]))
 
 
-reg(Spec("C03", "Payloads accepted by validation expose only in-bounds data", ["AsamCmp.Props.C03"],
-         ["AsamCmp.C03.accessors_inbounds", "AsamCmp.C03.kinds_total", "AsamCmp.C03.msgValid_inbounds", "AsamCmp.C03.create_valid", "AsamCmp.C03.validator_kind", "AsamCmp.C03.decoded_accessors_inbounds"], ["AsamCmp.Props.C03"], gen_val.gen_c03, predicate=gen_val.pred_c03, selfcheck=gen_val.selfcheck_val,
+reg(Spec("C03", "Payloads accepted by validation expose only in-bounds data", ["AsamCmp.Props.C03", "AsamCmp.Props.GenChecks"],
+         ["AsamCmp.C03.accessors_inbounds", "AsamCmp.C03.kinds_total", "AsamCmp.C03.msgValid_inbounds", "AsamCmp.C03.create_valid", "AsamCmp.C03.validator_kind", "AsamCmp.C03.decoded_accessors_inbounds", "AsamCmp.GenChecks.create_dispatch_ok"], ["AsamCmp.Props.C03", "AsamCmp.Props.GenChecks"], gen_val.gen_c03, predicate=gen_val.pred_c03, selfcheck=gen_val.selfcheck_val,
          rule="per class: every buffer length 0..header+8 x {zeros, ones, random}; every inner length field x {0, fits-1, fits, fits+1, max}; every truncation of well-formed status payloads; random content; a 65.6 KiB interface payload with count 0xFFFF; message-level buffers; accessors of decoded and TECMP-converted packets; views are touched byte by byte under ASan"))
 
 
